@@ -17,7 +17,7 @@ WR = {"quick": (2, 2), "thorough": (2, 2)}
 NWIRE = {"quick": 8, "thorough": 14}
 CORR = {"quick": 1, "thorough": 2}
 STEP = 25
-CALL_LIMIT = 5.0
+CALL_LIMIT = 20.0  # wall clock; generous so that an overloaded machine is not mistaken for non-termination
 
 
 def units(tier):
